@@ -379,6 +379,8 @@ def replay(w):
             return False, 'ok'
         if kind == 'zero_noise':
             ne, npr, mode = w['nensembles'], w['nprocesses'], w['noise_mode']
+            if w.get('dtype'):       # the same recording stored as integer counts / in single precision
+                x = np.round(x * 500).astype(w['dtype']) if w['dtype'].startswith('int') else x.astype(w['dtype'])
             out = emd.sift.ensemble_sift(x, nensembles=ne, nprocesses=npr, noise_mode=mode, ensemble_noise=0, max_imfs=w.get('cap', 3))
             ref = emd.sift.sift(x, max_imfs=w.get('cap', 3))
             if out.shape != ref.shape or not np.allclose(out, ref, rtol=1e-10, atol=1e-12):
@@ -399,6 +401,8 @@ def replay(w):
             try:
                 t = np.linspace(0, 1, 400)
                 xs = np.sin(2 * np.pi * 11 * t) * (1 + 0.5 * t) + 0.6 * np.sin(2 * np.pi * 3 * t + 0.5) + 0.4 * t
+                if w.get('dtype'):
+                    xs = np.round(xs * 500).astype(w['dtype']) if w['dtype'].startswith('int') else xs.astype(w['dtype'])
                 np.random.seed(w.get('seed', 0))
                 try:
                     out = S.ensemble_sift(xs, nensembles=ne, nprocesses=npr, noise_mode=mode, ensemble_noise=w.get('level', 0.5), max_imfs=w.get('cap'))
@@ -415,7 +419,7 @@ def replay(w):
             if out.shape != (len(xs), k):
                 return True, 'ensemble of members with %s IMFs (max_imfs=%s) has shape %s, expected %d components (those every member contains)' % (counts, w.get('cap'), out.shape, k)
             exp = np.mean([m[:, :k] for m in members], axis=0)
-            if not np.allclose(out, exp, rtol=1e-10, atol=1e-12):
+            if not np.allclose(out, exp, rtol=1e-10, atol=1e-12 * max(1.0, float(np.abs(exp).max()))):
                 return True, 'ensemble result is not the per-IMF mean over all %d members (member IMF counts %s): max diff %.3g' % (ne, counts, np.abs(out - exp).max())
             return False, 'ok (member IMF counts %s)' % counts
     return False, 'unknown witness kind'
@@ -465,3 +469,18 @@ def refute(tier, seed, emit):
                     ok, msg = replay(w)
                     if ok:
                         emit.violation('zero-noise-equals-classic-sift', w, msg)
+    # recordings stored as integer counts / single precision: the ensemble is still the mean over its members, zero noise still the classic sift
+    emit.scope('the same checks on a recording stored as int64 / int32 / float32: zero noise == classic sift (nensembles 3, nprocesses {1, 2}, both modes); result == per-IMF mean over the recorded members (nensembles 4, noise 0.5)')
+    for dt in ('int64', 'int32', 'float32'):
+        for npr in (1, 2):
+            for mode in ('single', 'flip'):
+                emit.case(('zero-dtype', dt, npr, mode), nontrivial=dt != 'float32', contract='ensemble_sift')
+                w = {'kind': 'zero_noise', 'nensembles': 3, 'nprocesses': npr, 'noise_mode': mode, 'cap': 3, 'dtype': dt}
+                ok, msg = replay(w)
+                if ok:
+                    emit.violation('zero-noise-equals-classic-sift:%s-input' % dt, w, msg)
+        w = {'kind': 'mean', 'nensembles': 4, 'nprocesses': 2, 'noise_mode': 'single', 'seed': 1, 'cap': 3, 'level': 0.5, 'dtype': dt}
+        ok, msg = replay(w)
+        emit.case(('mean-dtype', dt), nontrivial=dt != 'float32', contract='ensemble_sift')
+        if ok:
+            emit.violation('result-is-the-per-imf-mean-over-all-members:%s-input' % dt, w, msg)
